@@ -562,44 +562,88 @@ def rule_row_sum_form(ctx: Ctx) -> None:
     fails: List[Tuple[ast.AST, str]] = []
     # (a) the accumulation
     gcalls = [c for c in calls_in(fn) if call_attr(c) == "g_function" or (isinstance(c.func, ast.Name) and c.func.id == "g_function")]
-    if len(gcalls) != 1 or len(gcalls[0].args) != 4:
-        raise AnalysisError("prim.row-sum: the g_function call was not found")
-    gc = gcalls[0]
-    loop = None
-    for n in ast.walk(fn):
-        if isinstance(n, ast.For) and any(x is gc for x in ast.walk(n)):
-            loop = n
-    if loop is None or not isinstance(loop.target, ast.Name):
-        raise AnalysisError("prim.row-sum: the loop over qubits was not found")
-    j = loop.target.id
-    defs = {s.targets[0].id: s.value for s in fn.body if isinstance(s, ast.Assign) and isinstance(s.targets[0], ast.Name)}
-    it = loop.iter
-    full = False
-    if isinstance(it, ast.Call) and call_name(it) == "range" and len(it.args) == 1:
-        b = it.args[0]
-        if isinstance(b, ast.Name) and b.id in defs:
-            b = defs[b.id]
-        full = norm(b) in (f"np.shape({X})[1]", f"{X}.shape[1]", f"np.shape({Z})[1]", f"{Z}.shape[1]", f"len({X}[0])", f"len({Z}[0])")
-    if not full:
-        fails.append((loop, f"the sum of g_function does not run over every qubit (`{short(it)}`)"))
-    args = [norm(a) for a in gc.args]
-    pair = lambda row: [f"{X}[{row}, {j}]", f"{Z}[{row}, {j}]"]
-    if not (args in (pair(A) + pair(T), pair(T) + pair(A))):
-        fails.append((gc, f"g_function receives `{', '.join(args)}`; it needs the (x, z) bits of one row followed by the (x, z) bits of the other, at the same qubit"))
     acc = None
-    p = gc
-    from ..core import parent as _parent
-    while p is not None and not isinstance(p, (ast.Assign, ast.AugAssign)):
-        p = _parent(p)
-    if isinstance(p, ast.AugAssign) and isinstance(p.op, ast.Add) and isinstance(p.target, ast.Name) and p.value is gc:
-        acc = p.target.id
-    elif isinstance(p, ast.Assign) and isinstance(p.targets[0], ast.Name) and isinstance(p.value, ast.BinOp) and isinstance(p.value.op, ast.Add) \
-            and {norm(p.value.left), norm(p.value.right)} == {p.targets[0].id, norm(gc)}:
-        acc = p.targets[0].id
-    if acc is None:
-        fails.append((gc, "the values of g_function are not accumulated by addition"))
-    elif not (acc in defs and isinstance(defs[acc], ast.Constant) and defs[acc].value == 0):
-        fails.append((gc, f"the accumulator `{acc}` does not start at 0"))
+    if not gcalls:
+        # vectorised form: <acc> = np.sum(<polynomial in the two rows' x and z vectors>) — evaluated for the sixteen bit patterns
+        rows = {}
+        for a_ in ast.walk(fn):
+            if isinstance(a_, ast.Assign) and len(a_.targets) == 1:
+                tg, vl = a_.targets[0], a_.value
+                pairs = list(zip(tg.elts, vl.elts)) if isinstance(tg, ast.Tuple) and isinstance(vl, ast.Tuple) and len(tg.elts) == len(vl.elts) else [(tg, vl)]
+                for t_, v_ in pairs:
+                    if isinstance(t_, ast.Name) and isinstance(v_, ast.Subscript) and norm(v_.value) in (X, Z) and norm(v_.slice) in (A, T, f"{A}, :", f"{T}, :"):
+                        rows[t_.id] = ("x" if norm(v_.value) == X else "z", "a" if norm(v_.slice).split(",")[0] == A else "t")
+        sums = [a_ for a_ in ast.walk(fn) if isinstance(a_, ast.Assign) and isinstance(a_.targets[0], ast.Name) and isinstance(a_.value, ast.Call)
+                and ((call_name(a_.value) in ("np.sum", "sum") and a_.value.args) or (call_attr(a_.value) == "sum" and not a_.value.args))
+                and any(isinstance(x_, ast.Name) and x_.id in rows for x_ in ast.walk(a_.value))]
+        if len(sums) != 1 or len(set(rows.values())) != 4:
+            raise AnalysisError("prim.row-sum: the g_function call was not found")
+        expr = sums[0].value.args[0] if sums[0].value.args else sums[0].value.func.value
+
+        def pev(e, env):
+            if isinstance(e, ast.Constant) and isinstance(e.value, int):
+                return e.value
+            if isinstance(e, ast.Name) and e.id in env:
+                return env[e.id]
+            if isinstance(e, ast.UnaryOp) and isinstance(e.op, ast.USub):
+                return -pev(e.operand, env)
+            if isinstance(e, ast.BinOp) and isinstance(e.op, (ast.Add, ast.Sub, ast.Mult)):
+                l_, r_ = pev(e.left, env), pev(e.right, env)
+                return l_ + r_ if isinstance(e.op, ast.Add) else l_ - r_ if isinstance(e.op, ast.Sub) else l_ * r_
+            raise AnalysisError(f"prim.row-sum: vectorised phase term `{short(e)}` is not a polynomial in the rows' bits")
+        wrong = {"at": [], "ta": []}
+        for bits in itertools.product((0, 1), repeat=4):
+            pa, pb = (bits[0], bits[1]), (bits[2], bits[3])       # Pauli of row_to_add, Pauli of target_row
+            env = {nm: (pa if who == "a" else pb)[0 if kind == "x" else 1] for nm, (kind, who) in rows.items()}
+            got = pev(expr, env)
+            for order, (p1, p2) in (("at", (pa, pb)), ("ta", (pb, pa))):
+                a_m, b_m = cl.PAULI1[_LETTER[p1]], cl.PAULI1[_LETTER[p2]]
+                c_m = cl.PAULI1[_LETTER[(p1[0] ^ p2[0], p1[1] ^ p2[1])]]
+                k = next(k for k in range(4) if cl.close(cl.mm(a_m, b_m), cl.scale(c_m, 1j ** k)))
+                if (got - k) % 4 != 0:
+                    wrong[order].append(f"{_LETTER[p1]}·{_LETTER[p2]}: term {got}, the product carries i^{k if k < 3 else -1}")
+        if wrong["at"] and wrong["ta"]:
+            best = min(wrong.values(), key=len)
+            fails.append((sums[0], "the vectorised phase term disagrees with the Pauli multiplication table: " + "; ".join(best[:3])))
+        acc = sums[0].targets[0].id
+    if gcalls:
+        if len(gcalls) != 1 or len(gcalls[0].args) != 4:
+            raise AnalysisError("prim.row-sum: the g_function call was not found")
+        gc = gcalls[0]
+        loop = None
+        for n in ast.walk(fn):
+            if isinstance(n, ast.For) and any(x is gc for x in ast.walk(n)):
+                loop = n
+        if loop is None or not isinstance(loop.target, ast.Name):
+            raise AnalysisError("prim.row-sum: the loop over qubits was not found")
+        j = loop.target.id
+        defs = {s.targets[0].id: s.value for s in fn.body if isinstance(s, ast.Assign) and isinstance(s.targets[0], ast.Name)}
+        it = loop.iter
+        full = False
+        if isinstance(it, ast.Call) and call_name(it) == "range" and len(it.args) == 1:
+            b = it.args[0]
+            if isinstance(b, ast.Name) and b.id in defs:
+                b = defs[b.id]
+            full = norm(b) in (f"np.shape({X})[1]", f"{X}.shape[1]", f"np.shape({Z})[1]", f"{Z}.shape[1]", f"len({X}[0])", f"len({Z}[0])")
+        if not full:
+            fails.append((loop, f"the sum of g_function does not run over every qubit (`{short(it)}`)"))
+        args = [norm(a) for a in gc.args]
+        pair = lambda row: [f"{X}[{row}, {j}]", f"{Z}[{row}, {j}]"]
+        if not (args in (pair(A) + pair(T), pair(T) + pair(A))):
+            fails.append((gc, f"g_function receives `{', '.join(args)}`; it needs the (x, z) bits of one row followed by the (x, z) bits of the other, at the same qubit"))
+        p = gc
+        from ..core import parent as _parent
+        while p is not None and not isinstance(p, (ast.Assign, ast.AugAssign)):
+            p = _parent(p)
+        if isinstance(p, ast.AugAssign) and isinstance(p.op, ast.Add) and isinstance(p.target, ast.Name) and p.value is gc:
+            acc = p.target.id
+        elif isinstance(p, ast.Assign) and isinstance(p.targets[0], ast.Name) and isinstance(p.value, ast.BinOp) and isinstance(p.value.op, ast.Add) \
+                and {norm(p.value.left), norm(p.value.right)} == {p.targets[0].id, norm(gc)}:
+            acc = p.targets[0].id
+        if acc is None:
+            fails.append((gc, "the values of g_function are not accumulated by addition"))
+        elif not (acc in defs and isinstance(defs[acc], ast.Constant) and defs[acc].value == 0):
+            fails.append((gc, f"the accumulator `{acc}` does not start at 0"))
     # (b) the linear form
     stores = [s for s in ast.walk(fn) if isinstance(s, ast.Assign) and isinstance(s.targets[0], ast.Subscript)
               and norm(s.targets[0].value) in (R, I) and norm(s.targets[0].slice) == T]
